@@ -61,7 +61,7 @@ StatsAll == {"true", "false", "auto"}
 StatsQuick == {"true", "auto"}
 V12 == {1, 2}
 OptDefault == {"default"}
-OptsAll == {"default", "int96", "explicit", "fixed", "hive", "index", "index2", "rangeidx"}
+OptsAll == {"default", "int96", "explicit", "fixed", "hive", "index", "index2", "rangeidx", "rangestep"}
 CodecNone == {"none"}
 CodecsAll == {"none", "SNAPPY", "GZIP", "ZSTD", "LZ4", "BROTLI"}
 CodecsSome == {"none", "SNAPPY", "GZIP"}
